@@ -386,10 +386,13 @@ if buf.getvalue().strip() != "-1":
 
 
 def run(chk):
-    chk.functions += ["iodata.inputs.common.write_input_base", "iodata.inputs.gaussian.write_input", "iodata.inputs.gaussian.default_atom_line", "iodata.inputs.orca.write_input", "iodata.inputs.orca.default_atom_line", "iodata.periodic.num2sym (ground)"]
+    chk.functions += ["iodata.api.write_input (error contract)", "iodata.inputs.common.write_input_base", "iodata.inputs.gaussian.write_input", "iodata.inputs.gaussian.default_atom_line", "iodata.inputs.orca.write_input", "iodata.inputs.orca.default_atom_line", "iodata.periodic.num2sym (ground)"]
     chk.trusted += ["z3", "str.format / str.join / f-string rendering (contracts are stated on the fields handed to them)", "attrs.asdict(obj, recurse=False) = {field name: value}", "np.round = round half to even; int() = truncation; abs()", "dict lookup with a symbolic key = case split over the keys"]
-    chk.assumptions += [A_FP, "api.write_input / unknown program / rendering failures: see C08"]
+    chk.assumptions += [A_FP, "api.write_input error contract: obligations of checks.c08.job_write_input, re-run here"]
     jobs = [("checks.c19", "job_base", {}), ("checks.c19", "job_symbols", {})] + [("checks.c19", "job_atom_line", {"prog": p}) for p in ("gaussian", "orca")] + [("checks.c19", "job_write_input", {"prog": p}) for p in ("gaussian", "orca")]
+    # "unknown program names raise FileFormatError and any failure while rendering raises WriteInputError": the
+    # contract of api.write_input is the one proved for C08; its obligations are re-proved here on every run
+    jobs.append(("checks.c08", "job_write_input", {}))
     collect(chk, run_jobs(jobs))
     run_bounded(chk)
     for o in chk.ledger.obligations.values():
